@@ -178,12 +178,40 @@ def may_follow(a, b, pos, loops, branch):
     return True
 
 
+def fmt_literal_arg(n, i):
+    """the text a literal argument of a FormatArgs node displays as (char / str / integer / bool literal), else None"""
+    if i >= len(n.get("args", [])):
+        return None
+    a = n["args"][i]
+    while isinstance(a, dict) and a.get("k") in ("AddrOf", "DropTemps", "Use", "Block") and (a.get("e") is not None or (a.get("k") == "Block" and not a["block"].get("stmts") and a["block"].get("expr"))):
+        a = a["e"] if a.get("e") is not None else a["block"]["expr"]
+    if isinstance(a, dict) and a.get("k") == "Lit" and a["lit"].get("t") in ("str", "char", "int", "bool", "fmtlit"):
+        v = a["lit"].get("v")
+        return ("true" if v else "false") if isinstance(v, bool) else str(v)
+    return None
+
+
+def fmt_live_args(n):
+    """indices of the arguments of a FormatArgs node that are not written-out literals, in first-use order"""
+    order = []
+    for p in n["pieces"]:
+        if "lit" not in p and p["arg"] not in order and not (p["tr"] == "Display" and not p.get("spec") and fmt_literal_arg(n, p["arg"]) is not None):
+            order.append(p["arg"])
+    return order
+
+
 def fmt_pieces(n):
-    """template of a FormatArgs node as a string with {i} placeholders"""
+    """template of a FormatArgs node as a string with {i} placeholders; literal arguments displayed with the default spec
+    are written out (`"{},{},{}", t, 'A', m` is `{0},A,{1}`) and the remaining arguments renumbered in first-use order"""
     out = ""
+    live = fmt_live_args(n)
     for p in n["pieces"]:
         if "lit" in p:
             out += p["lit"]
         else:
-            out += "{%d%s}" % (p["arg"], ":" + p["tr"] if p["tr"] != "Display" else "")
+            litv = fmt_literal_arg(n, p["arg"]) if (p["tr"] == "Display" and not p.get("spec")) else None
+            if litv is not None:
+                out += litv
+            else:
+                out += "{%d%s}" % (live.index(p["arg"]), ":" + p["tr"] if p["tr"] != "Display" else "")
     return out
